@@ -2,7 +2,7 @@
 import json
 import os
 
-from facts import AnalysisBroken, VERIF
+from facts import AnalysisBroken, VERIF, walk, strip_casts
 import contracts
 import guards
 import keyrule
@@ -214,6 +214,49 @@ def redeclaration_operands(ck, F, prefix, only=None):
                      loc=g['loc'], fn=g['id'])
 
 
+REORDERING = ('sort', 'stable_sort', 'reverse', 'rotate', 'shuffle', 'random_shuffle', 'partition', 'stable_partition', 'nth_element',
+              'partial_sort', 'unique', 'next_permutation', 'prev_permutation', 'make_heap', 'sort_heap', 'push_heap', 'pop_heap', 'swap_ranges')
+
+
+def operand_order_rule(ck, F, prefix):
+    """<prefix>.operands-in-given-order: a factory that collects the operands of a request into a container of its own does not reorder
+    that container (sort, reverse, rotate, unique, ...) and then go on using it: the node found or built from it would expose its operands
+    in another order than the one given.  Returns True when a violation was reported."""
+    R = ck.rule(f'{prefix}.operands-in-given-order', 'no factory applies a reordering algorithm of the standard library (sort, reverse, rotate, unique, '
+                'partition, ...) to a container of its own that it then goes on using to find or build the node: operands are exposed in the order '
+                'given (reordering is not one of the documented normal forms)', floor=1)
+    found = False
+    n_sites = 0
+    for f in sorted(wire.all_factories(F), key=lambda f: f['id']):
+        for m in walk(f.get('body')):
+            c = m.get('callee') or {}
+            if m.get('k') != 'call' or c.get('repo') is not False or c.get('name') not in REORDERING or not (c.get('q') or c.get('id') or '').startswith('std::'):
+                continue
+            a0 = (m.get('args') or [None])[0]
+            x = strip_casts(a0 or {})
+            while x.get('k') in ('ctor',) and len(x.get('args', [])) == 1:
+                x = strip_casts(x['args'][0])
+            if x.get('k') == 'call' and (x.get('callee') or {}).get('name') in ('begin', 'rbegin', 'data') and x.get('obj') is not None:
+                x = strip_casts(x['obj'])
+            elif x.get('k') == 'call' and (x.get('callee') or {}).get('name') in ('begin', 'rbegin') and len(x.get('args', [])) == 1:
+                x = strip_casts(x['args'][0])
+            if not (x.get('k') == 'ref' and x.get('kind') == 'local'):
+                continue
+            n_sites += 1
+            later = [r for r in walk(f['body']) if r.get('k') == 'ref' and r.get('kind') == 'local' and r.get('id') == x.get('id') and r.get('name') == x.get('name')
+                     and r.get('ln', 0) > m.get('ln', 0)]
+            sid = '::'.join(contracts.fn_qname(f['id']).split('::')[-2:]) + '/' + str(len(f['params'])) + f':{m.get("ln")}'
+            if later:
+                found = True
+            ck.check(R, sid, not later, f'{f["id"]} (line {m.get("ln")}) applies std::{c.get("name")} to its local `{x.get("name")}` and uses it afterwards (line '
+                     f'{later[0].get("ln") if later else "?"}): the node is found or built from the operands in another order than the one the request gave',
+                     loc=f['loc'], fn=f['id'])
+    if n_sites == 0:
+        ck.check(R, 'inventory', True, '')
+    return found
+
+
+
 def run(ck, F):
     ck.explanation = (
         'Every factory (all members of the nine factory classes returning a node, plus the member builders of '
@@ -225,6 +268,8 @@ def run(ck, F):
         '(tables/factory_contract.json); independent of the table, no parameter may be dropped.')
     with open(TABLE) as fh:
         table = json.load(fh)['contracts']
+    if operand_order_rule(ck, F, 'C02'):
+        return          # (the reordering code is outside the evaluator's language; the violation stands on its own)
     cur = wire.compute(F)
     R_tab = ck.rule('C02.WIRE', 'each accessor of a factory-built node yields the term recorded in the confirmed '
                     'contract table (operands under their documented accessors, in order; absent optional parts '
